@@ -118,3 +118,158 @@ func TestVerifBoundedC16(t *testing.T) {
 	}
 	fmt.Printf("BOUNDED-SUMMARY name=c16_proofs evaluations=%d distinct_nontrivial=%d violations=%d bound=trees:%d,keys<=%d,absent:4,seed:%d\n", evals, nontrivial, total, trees, maxKeys, seed)
 }
+
+// TestVerifBoundedC16History: proofs at the Store level over HISTORIES (labelled bounded, NOT a proof). Random
+// histories of committed blocks (sets, overwrites, deletes), with rollbacks to an earlier height followed by
+// different blocks. At the end, for every retained height v, a read-only store of v must - against the root that
+// Commit() returned for v -
+//   completeness: prove membership of every key present at v with its value at v, and non-membership of every pool
+//                 key absent at v;
+//   soundness:    never accept membership of an absent pool key with the value it had on an abandoned branch or at
+//                 another height, nor non-membership of a present key.
+// The reference state per height is kept by the test itself (a map per height, truncated on rollback).
+func TestVerifBoundedC16History(t *testing.T) {
+	seed, _ := strconv.ParseInt(os.Getenv("VERIF_SEED"), 10, 64)
+	histories, _ := strconv.Atoi(os.Getenv("VERIF_BOUND_HISTORIES"))
+	if histories == 0 {
+		histories = 12
+	}
+	const pool, maxBlocks, maxOps = 10, 6, 6
+	rng := rand.New(rand.NewSource(seed + 16))
+	evals, nontrivial := 0, 0
+	counts := map[string]int{}
+	report := func(kind, detail string) {
+		counts[kind]++
+		if counts[kind] <= 2 {
+			fmt.Printf("BOUNDED-VIOLATION kind=%s %s\n", kind, detail)
+		}
+	}
+	key := func(i int) []byte { return lib.JoinLenPrefix([]byte("p/"), []byte(fmt.Sprintf("hk-%02d", i))) }
+histories:
+	for h := 0; h < histories; h++ {
+		st, err := NewStoreInMemory(lib.NewNullLogger())
+		if err != nil {
+			t.Fatal(err)
+		}
+		s := st.(*Store)
+		states := []map[int]string{{}} // states[v]: pool index -> value at height v (states[0] = empty)
+		roots := [][]byte{nil}
+		everVal := map[int]map[string]bool{} // values a key ever had, on any branch
+		var trace []string
+		nb := 2 + rng.Intn(maxBlocks-1)
+		rolled := false
+		for b := 0; b < nb; b++ {
+			cur := map[int]string{}
+			for k, v := range states[len(states)-1] {
+				cur[k] = v
+			}
+			for i, n := 0, 1+rng.Intn(maxOps); i < n; i++ {
+				k := rng.Intn(pool)
+				if _, ok := cur[k]; ok && rng.Intn(3) == 0 {
+					if e := s.Delete(key(k)); e != nil {
+						report("history.error", fmt.Sprintf("history=%d seed=%d: Delete: %v trace=%v", h, seed, e, trace))
+						continue histories
+					}
+					delete(cur, k)
+					trace = append(trace, fmt.Sprintf("del %d", k))
+				} else {
+					v := fmt.Sprintf("v%d-%d-%d", h, b, rng.Intn(100))
+					if e := s.Set(key(k), []byte(v)); e != nil {
+						report("history.error", fmt.Sprintf("history=%d seed=%d: Set: %v trace=%v", h, seed, e, trace))
+						continue histories
+					}
+					cur[k] = v
+					if everVal[k] == nil {
+						everVal[k] = map[string]bool{}
+					}
+					everVal[k][v] = true
+					trace = append(trace, fmt.Sprintf("set %d=%s", k, v))
+				}
+			}
+			root, e := s.Commit()
+			if e != nil {
+				report("history.error", fmt.Sprintf("history=%d seed=%d: Commit: %v trace=%v", h, seed, e, trace))
+				continue histories
+			}
+			states, roots = append(states, cur), append(roots, root)
+			trace = append(trace, fmt.Sprintf("commit->%d", len(states)-1))
+			// sometimes rewind to an earlier height and continue from there with different blocks
+			if len(states) > 2 && rng.Intn(3) == 0 {
+				target := 1 + rng.Intn(len(states)-2)
+				if e := s.Rollback(uint64(target)); e != nil {
+					report("history.error", fmt.Sprintf("history=%d seed=%d: Rollback(%d): %v trace=%v", h, seed, target, e, trace))
+					continue histories
+				}
+				states, roots = states[:target+1], roots[:target+1]
+				trace = append(trace, fmt.Sprintf("rollback->%d", target))
+				rolled = true
+			}
+		}
+		if rolled {
+			nontrivial++
+		}
+		for v := 1; v < len(states); v++ {
+			roI, e := s.NewReadOnly(uint64(v))
+			if e != nil {
+				report("history.error", fmt.Sprintf("history=%d seed=%d: NewReadOnly(%d): %v trace=%v", h, seed, v, e, trace))
+				continue
+			}
+			ro := roI.(*Store)
+			if _, e = ro.Root(); e != nil {
+				report("history.error", fmt.Sprintf("history=%d seed=%d: Root() of the read-only store of height %d: %v trace=%v", h, seed, v, e, trace))
+				continue
+			}
+			verify := func(k, val []byte, member bool, proof []*lib.Node) (ok bool) {
+				defer func() {
+					if r := recover(); r != nil {
+						ok = false
+					}
+				}()
+				ok, err := ro.VerifyProof(k, val, member, roots[v], proof)
+				return ok && err == nil
+			}
+			for k := 0; k < pool; k++ {
+				var proof []*lib.Node
+				var e lib.ErrorI
+				func() {
+					defer func() {
+						if r := recover(); r != nil {
+							e = lib.NewError(0, "verif", fmt.Sprintf("GetProof panicked: %v", r))
+						}
+					}()
+					proof, e = ro.GetProof(key(k))
+				}()
+				if e != nil {
+					report("history.getproof", fmt.Sprintf("history=%d seed=%d height=%d key=%d: %v trace=%v", h, seed, v, k, e, trace))
+					continue
+				}
+				evals++
+				if val, present := states[v][k]; present {
+					if !verify(key(k), []byte(val), true, proof) {
+						report("history.completeness.member", fmt.Sprintf("history=%d seed=%d height=%d key=%d: membership proof of a present key rejected against the committed root; trace=%v", h, seed, v, k, trace))
+					}
+					if verify(key(k), nil, false, proof) {
+						report("history.soundness.nonmember", fmt.Sprintf("history=%d seed=%d height=%d key=%d: NON-membership of a present key accepted; trace=%v", h, seed, v, k, trace))
+					}
+				} else {
+					if !verify(key(k), nil, false, proof) {
+						report("history.completeness.nonmember", fmt.Sprintf("history=%d seed=%d height=%d key=%d: non-membership proof of an absent key rejected against the committed root; trace=%v", h, seed, v, k, trace))
+					}
+					for old := range everVal[k] {
+						if verify(key(k), []byte(old), true, proof) {
+							report("history.soundness.member", fmt.Sprintf("history=%d seed=%d height=%d key=%d: membership of an ABSENT key (value %q of another height or an abandoned branch) accepted; trace=%v", h, seed, v, k, old, trace))
+						}
+					}
+				}
+			}
+			ro.Discard()
+		}
+		s.Close()
+	}
+	total := 0
+	for k, c := range counts {
+		fmt.Printf("BOUNDED-SAMPLE %s: %d cases\n", k, c)
+		total += c
+	}
+	fmt.Printf("BOUNDED-SUMMARY name=c16_history evaluations=%d distinct_nontrivial=%d violations=%d bound=pool:%d,blocks<=%d,ops/block<=%d,histories:%d,seed:%d\n", evals, nontrivial, total, pool, maxBlocks, maxOps, histories, seed)
+}
